@@ -10,3 +10,11 @@ package did
 //@   inline
 //@   ensures [C10,C16] spec: result == didDefined(d)
 //@   assigns [C20] nothing
+//@
+//@ // the multicodec codes the parser accepts
+//@ pure func parseSet(c int) bool = c == Ed25519 || c == P256 || c == Secp256k1 || c == RSA
+//@
+//@ func Parse
+//@   ensures [C16,C10] accepted: result1 == nil ==> hasPrefix(str, "did:key:") && parseSet(result0.code) && didDefined(result0)
+//@   ensures [C16] rejected: result1 != nil ==> result0 == Undef
+//@   assigns [C20] nothing
